@@ -639,7 +639,9 @@ func check(id, tier string) int {
 				if len(samples) < 12 {
 					samples = append(samples, map[string]interface{}{"harness": h.Entry, "reached": l, "inputs": compactScript(w)})
 				}
-				if !h.Concurrent {
+				{
+					// (concurrent harnesses too: natively the Go scheduler picks some schedule; on a
+					// tree where the property holds every schedule reaches the marker without a failed assertion)
 					p := filepath.Join(replayDir, fmt.Sprintf("witness-%s-%s.json", h.Entry, sanitize(l)))
 					writeJSON(p, rs)
 					pending = append(pending, p)
